@@ -34,7 +34,7 @@ def history_lines(ex, label):
     return out
 
 
-def run_mb(ck, clauses, box_clauses=()):
+def run_mb(ck, clauses, box_clauses=(), conc=()):
     """clauses: propfail clause names that belong to the property"""
     ck.coq()
     if not ck.build_harness("backend"):
@@ -62,6 +62,38 @@ def run_mb(ck, clauses, box_clauses=()):
     ck.rule = RULE % (ck.stats.get("exhaustive_depth"), ck.stats.get("alphabet"), 400 if ck.tier == "thorough" else 200)
     if box_clauses and not ck.replay:
         run_box(ck, box_clauses)
+    if conc and not ck.replay:
+        run_conc(ck, conc)
+
+
+def run_conc(ck, kinds):
+    """concurrent phase on the real backend, judged directly (`direct conc_<kind> <round> ok|FAIL …`); in the thorough
+    tier once more under the race detector"""
+    if ck.replay or not ck.harness_bin:
+        return
+    path, out = ck.harness("mbconc", out_name="mbconc.txt", timeout=3000)
+    crash = [i for i, l in enumerate(out) if l.startswith("fatal error:") or l.startswith("panic:")]
+    if crash:
+        # e.g. "fatal error: concurrent map iteration and map write": the backend's own state was corrupted by its clients
+        ck.fail_input("atomic", "the real backend crashed in the concurrent phase: " + out[crash[0]], out[crash[0]:crash[0] + 25])
+    ex = open(path).read().splitlines() if os.path.exists(path) else []
+    n = 0
+    for l in ex:
+        f = l.split()
+        if len(f) >= 4 and f[0] == "direct" and f[1] in kinds:
+            n += 1
+            if f[3] == "FAIL":
+                ck.fail_input(f[1], l, [l])
+    ck.extra["concurrent_rounds_judged"] = n
+    ck.evaluations += n
+    if ck.tier == "thorough":
+        rb = ck.build_harness("backend", race=True)
+        if rb:
+            path, out = ck.harness("mbconc", out_name="mbconc_race.txt", timeout=3000, binary=rb)
+            race = [i for i, l in enumerate(out) if "DATA RACE" in l]
+            if race:
+                ck.fail_input("atomic", "data race reported by the Go race detector in the concurrent phase", out[race[0]:race[0] + 30])
+            ck.extra["race_detector_run"] = True
 
 
 def run_box(ck, clauses):
